@@ -78,7 +78,7 @@ Proof.
     rewrite Nat.eqb_refl in H. discriminate.
   - intros H a x b y c E. apply false_true_False. intros Hb.
     destruct x as [|cn k| | | | |]; try discriminate.
-    destruct k as [| | | | | | | |mm| | | |?|?| |]; try discriminate. destruct mm; try discriminate.
+    destruct k as [| | | | | | | |mm| | | |?|?| | |]; try discriminate. destruct mm; try discriminate.
     simpl in Hb. apply is_conn_eq in Hb. subst. eapply H; eauto.
 Qed.
 
@@ -243,13 +243,24 @@ Proof.
     exists (Conn cn CliGone). split; [left; eapply H; eauto|apply is_conn_refl].
 Qed.
 
+Definition OriginResponseDelivered (tr : list label) : Prop :=
+  forall cn, ~ In (Conn cn RTBroken) tr.
+
+Lemma ok_origin_response_iff tr : ok_origin_response tr = true <-> OriginResponseDelivered tr.
+Proof.
+  unfold ok_origin_response, OriginResponseDelivered. rewrite forallb_forall. split.
+  - intros H cn Hin. specialize (H _ Hin). discriminate.
+  - intros H l Hin. destruct l as [|cn k| | | | |]; try reflexivity.
+    destruct k; try reflexivity. exfalso. exact (H cn Hin).
+Qed.
+
 (* the whole oracle *)
 Definition C07_spec (tr : list label) (views : list cview) : Prop :=
   InflightCompletes tr /\ MarkedClose tr /\ MarkedThenClosed tr /\
   NoReqmodAfterReturn tr /\ LateAcceptNotServed tr /\ ReturnAfterServedClosed tr /\
   ReturnAfterAcceptedClosed tr /\
   AllClosed tr /\ CloseReturns tr /\ AllAnswered tr /\
-  ClientViews tr views /\ StatusMatches tr /\ FailOnlyIfGone tr.
+  ClientViews tr views /\ StatusMatches tr /\ FailOnlyIfGone tr /\ OriginResponseDelivered tr.
 
 Lemma c07_ok_iff tr views : c07_ok tr views = true <-> C07_spec tr views.
 Proof.
@@ -258,7 +269,7 @@ Proof.
     ok_no_reqmod_after_return_iff, ok_late_not_served_iff, ok_return_after_served_closed_iff,
     ok_return_after_accepted_closed_iff,
     ok_all_closed_iff, ok_close_returns_iff, ok_all_answered_iff, ok_client_views_iff,
-    ok_status_iff, ok_fail_only_if_gone_iff.
+    ok_status_iff, ok_fail_only_if_gone_iff, ok_origin_response_iff.
   tauto.
 Qed.
 
